@@ -223,7 +223,7 @@ partial def loop (h : IO.FS.Stream) (d : DS) : IO Unit := do
       if isData && gs.writeCompression && werr == 0 && (f "infl") != "" then
         match readAll gr.msgLimit ((envS.deflate x).length * 2) (envS.inflate (envS.deflate x)) with
         | .ok out => if out == x then "ok" else "bad"
-        | .tooLarge => "big"
+        | .tooLarge _ => "big"
         | _ => "bad"
       else "-"
     IO.println s!"W werr={werr} wire={short wire} recv={showActs racts} rerr={errStr rerr} back={showActs pb.acts} berr={errStr pb.err} rcache={sr1.cache.length} rmsglen={msgLen sr1} codec={codec}"
